@@ -30,7 +30,7 @@ RULE = ("ADMGs with 2-7 nodes (generator weighted towards sparse directed chains
         "and the run reached at least one of ID's lines 4-7.")
 ASSUMPTIONS = [
     "clause 'leaves the caller's graph and query objects unchanged' is a Python-runtime clause (R): decided by deep comparison of the graph, the argument sets and the Identification/Query objects before and after every call, not by a theorem (the model is pure)",
-    "clause 'refuses exactly when a hedge exists': the direction refusal => the c-component recursion of Tian/Huang-Valtorta gets stuck (i.e. a hedge exists) and its converse are decided per input by two independent decision procedures (c-component criterion; brute-force hedge search up to 6 nodes); the Lean theorems cover totality (only `ok`/`unidentifiable` for valid input) and termination; `id_fail_hedge` (refusal => hedge) is stated and listed OPEN where not proved; hedge => non-identifiable (Shpitser-Pearl Thm 4) is literature, not mechanised",
+    "clause 'refuses exactly when a hedge exists': the direction refusal => the c-component recursion of Tian/Huang-Valtorta gets stuck (i.e. a hedge exists) and its converse are decided per input by two independent decision procedures (c-component criterion; brute-force hedge search up to 6 nodes); the Lean theorems cover totality (only `ok`/`unidentifiable` for valid input), termination and `step_refusal_line5` (a refusal comes only from line 5 on a sub-problem whose graph and graph-minus-X are single districts); `id_fail_hedge` (refusal => hedge of the ORIGINAL query) is OPEN; hedge => non-identifiable (Shpitser-Pearl Thm 4) is literature, not mechanised",
     "`graph.topological_sort()` (networkx, on a graph rebuilt from a Python set) is a parameter `topo` of the model; the theorems assume it returns a linear extension of the directed part (trusted: networkx); the correspondence feeds the orders observed in the real run",
 ]
 EXHAUSTIVE = {"quick": False, "thorough": False}
@@ -66,7 +66,7 @@ def _example_cases():
 
 def cases(rng: random.Random, tier: str):
     out = [dict(c) for c in _corpus()] + _example_cases()
-    n = 3000 if tier == "quick" else 30000
+    n = 16000 if tier == "quick" else 90000
     for k in range(n):
         nmax = 7 if k % 3 else 5
         g = R.gen_graph(rng, 2, nmax)
@@ -164,13 +164,17 @@ def finding_key(case, res):
 
 
 MANIFEST = {
-    "text": ("Lean model of identify()/identify_outcomes (well-founded recursion on the measure (|V|, |V-X|); every "
-             "Python exception an explicit outcome) tied to the real code by differential correspondence on every run. "
-             "Theorems: the recursion guard never fires (termination), valid input yields only an estimand or "
-             "'unidentifiable' (no internal error), see Props/C02.lean for the exact list and what is OPEN. "
-             "Completeness w.r.t. hedges is decided per input by two independent decision procedures "
-             "(c-component criterion of Tian/Huang-Valtorta, brute-force hedge search <= 6 nodes); absence of side "
-             "effects by deep comparison of the caller's objects."),
+    "text": ("Lean model of identify()/identify_outcomes (well-founded recursion on the measure (|V|, |V-X|); every Python "
+             "exception an explicit outcome) tied to the real code by differential correspondence on every run. Theorems: "
+             "step_decreases (every recursive call is on a valid input with a strictly smaller measure), idAlg_measure_ok "
+             "(the guard of the well-founded definition never fires = termination), id_total / identifyOutcomes_total (valid "
+             "query => only an estimand or 'unidentifiable', no internal error; uses the node-preservation facts of C14, i.e. "
+             "the F1 fix), id_total_acyclic (closed form with a provably correct sorter and relational acyclicity), "
+             "step_refusal_line5 (a refusal is raised only by line 5: graph and graph minus X are single districts, X non-empty). "
+             "Completeness w.r.t. hedges is decided per input by two independent decision procedures (c-component criterion of "
+             "Tian/Huang-Valtorta; brute-force hedge search <= 5/6 nodes) which must agree with each other and with the verdict; "
+             "id_fail_hedge (refusal => hedge of the original query) is stated OPEN in Props/C02.lean; soundness of positive "
+             "verdicts is C01's id_sound. Absence of side effects: deep comparison of the caller's objects on every run."),
     "note": ("Trusted: Lean kernel; axioms propext/Classical.choice/Quot.sound; the hand-written model and the model of "
              "networkx/set iteration (topological order taken as a parameter), tied to the code by sampling; "
              "'hedge => not identifiable' is literature, not mechanised; 'no mutation' is a runtime clause."),
